@@ -48,7 +48,7 @@ For each change k in {1,2} write into %(root)s/%(id)s/out/m<k>/:
   NOTES.md      - what was changed, why it breaks the property (which clause), exactly what is needed for it to manifest,
                   and the commands you ran with their results (build, baseline with patch, demo with patch, demo without).
 Verify all of it yourself: apply the patch, build, run the baseline script, run the demo (fails), revert the patch
-(`git checkout -- . && git clean -fdq` in the worktree, keeping out/), run the demo (passes). Leave the worktree clean
+(`git checkout -- . && git clean -fdq` in the worktree, keeping out/; never use `git stash`: all scratch worktrees share one stash), run the demo (passes). Leave the worktree clean
 (no patch applied, no demo file) when done. Your final message: two lines, one per change, saying what it needs to manifest.
 ''' % dict(root=root,id=id,title=p['title'],statement=p['statement']))
 PY
